@@ -1,7 +1,9 @@
 (** C04 — property theorems only.  The full liveness statement is a Definition in C04/Open.v
     ([C04_liveness_full_statement]); what is proved here are its ingredients. *)
 From Coq Require Import List ZArith NArith Arith Bool.
-From Kardia Require Import C01.Power C04.Model C04.Proofs C04.ProofsRound C04.Open C04.MedianModel C04.ProofsMedian.
+From Kardia Require Import Base.Int64 C01.Power C04.Model C04.Proofs C04.ProofsRound C04.Open C04.MedianModel C04.ProofsMedian.
+From Kardia Require Import C04.StepModel C04.ProofsStep C04.ProofsTimeouts Generated.C04Facts C04.SourceTie.
+From Kardia Require Import C04.LockModel C04.ProofsLock C04.ProofsOpen C04.ProofsMedianSpec.
 Import ListNotations.
 
 (** The ticker never loses the latest timeout (consensus/ticker.go timeoutRoutine): after any
@@ -103,3 +105,143 @@ Theorem C04_median_strict_lower_bound :
     exists c, In c present /\ wt_faulty c = false /\ (wt_time c <= t)%Z.
 Proof. exact median_strict_lower_bound. Qed.
 Print Assumptions C04_median_strict_lower_bound.
+
+(** NO TIMEOUT IS LOST (round/step skeleton of consensus/state.go + the ticker, C04/StepModel.v; the vote and
+    block dependent conditions are free parameters of the events, so this holds whatever the votes are): after
+    any sequence of timer firings, handled timeouts, added prevotes / precommits / late precommits and
+    completed block part sets of a node started at height h0, if the node is in a state in which it only waits
+    for a timeout - NewHeight, Propose, PrevoteWait, NewRound with a positive CreateEmptyBlocksInterval, or any
+    step before Commit once TriggeredTimeoutPrecommit is set - then a timeout that handleTimeout will not
+    ignore is pending in its ticker or in flight to its receive routine.  (DESIGN: C04_timeout_progress; the
+    only waiting state without a timeout is "commit decided, block missing" = step Commit.) *)
+Theorem C04_timeout_never_lost :
+  forall (c : scfg) (h0 : N) (evs : list ev), (1 <= h0)%N ->
+    let nd := run_node c (init_node h0) evs in
+    waiting c nd -> exists t, (pending (nTk nd) = Some t \/ In t (nTocks nd)) /\ live nd t.
+Proof. exact timeout_never_lost. Qed.
+Print Assumptions C04_timeout_never_lost.
+
+(** ... and when such a timeout (pending or in flight) reaches handleTimeout, the node moves strictly forward
+    in (height, round, step); one that is not live (another height, an earlier round, an earlier step of the
+    round) changes nothing. *)
+Theorem C04_timeout_handled_progress :
+  forall (c : scfg) (h0 : N) (evs : list ev) (t : tinfo) (cp : bool), (1 <= h0)%N ->
+    let nd := run_node c (init_node h0) evs in
+    (pending (nTk nd) = Some t \/ In t (nTocks nd)) ->
+    (live nd t -> st_lt nd (handle_timeout c nd t cp)) /\
+    (~ live nd t -> handle_timeout c nd t cp = nd).
+Proof. exact timeout_handled_progress. Qed.
+Print Assumptions C04_timeout_handled_progress.
+
+(** Step NewRound is a resting state only in round 1 of a node whose configuration waits for transactions
+    (so the one waiting state of the skeleton without a timeout is NewRound with IsCreateEmptyBlocks = false,
+    which the evidence lists as an assumption: nothing in consensus/ reacts to TxsAvailable). *)
+Theorem C04_new_round_rest :
+  forall (c : scfg) (h0 : N) (evs : list ev),
+    let nd := run_node c (init_node h0) evs in nS nd = sNewRound -> nR nd = 1%N /\ wait_for_txs c = true.
+Proof. exact new_round_rest. Qed.
+Print Assumptions C04_new_round_rest.
+
+(** The timeouts outgrow any message delay: with a positive delta, every round beyond D / delta has a
+    Propose / Prevote / Precommit timeout longer than D, as long as base + delta * round stays in int64
+    ([timeout_dur] is configs/config.go's int64 expression, wraps included). *)
+Theorem C04_timeouts_outgrow_delay :
+  forall base delta D r, (0 <= base)%Z -> (0 < delta)%Z -> (0 <= r)%Z -> (D / delta < r)%Z ->
+    (base + delta * r <= max_int64)%Z -> (D < timeout_dur base delta r)%Z.
+Proof. exact timeouts_outgrow_delay. Qed.
+Print Assumptions C04_timeouts_outgrow_delay.
+
+(** With the shipped configuration (Generated/C04Facts.v, read from configs.DefaultConsensusConfig() on every
+    check) no uint32 round overflows: round r has the timeouts base + delta * r with positive deltas. *)
+Theorem C04_default_timeouts_exact :
+  forall r, (0 <= r < 4294967296)%Z ->
+    timeout_dur default_timeout_propose default_timeout_propose_delta r = (default_timeout_propose + default_timeout_propose_delta * r)%Z /\
+    timeout_dur default_timeout_prevote default_timeout_prevote_delta r = (default_timeout_prevote + default_timeout_prevote_delta * r)%Z /\
+    timeout_dur default_timeout_precommit default_timeout_precommit_delta r = (default_timeout_precommit + default_timeout_precommit_delta * r)%Z /\
+    (0 < default_timeout_propose_delta)%Z /\ (0 < default_timeout_prevote_delta)%Z /\ (0 < default_timeout_precommit_delta)%Z.
+Proof. exact default_timeouts_exact. Qed.
+Print Assumptions C04_default_timeouts_exact.
+
+(** The step numbering and EmptyTimeoutInfo of the models are those of the repository (facts regenerated from
+    consensus/types and consensus.EmptyTimeoutInfo()). *)
+Theorem C04_facts_steps :
+  Z.of_N sNewHeight = fact_step_new_height /\ Z.of_N sNewRound = fact_step_new_round /\ Z.of_N sPropose = fact_step_propose /\
+  Z.of_N sPrevote = fact_step_prevote /\ Z.of_N sPrevoteWait = fact_step_prevote_wait /\ Z.of_N sPrecommit = fact_step_precommit /\
+  Z.of_N sPrecommitWait = fact_step_precommit_wait /\ Z.of_N sCommit = fact_step_commit /\
+  Z.of_N (ti_h empty_ti) = fact_empty_ti_height /\ Z.of_N (ti_r empty_ti) = fact_empty_ti_round /\ Z.of_N (ti_s empty_ti) = fact_empty_ti_step.
+Proof. exact facts_steps. Qed.
+Print Assumptions C04_facts_steps.
+
+(** SOURCE TIE: the models' guards and arithmetic ARE the expressions go2coq translates from the Go sources on
+    every check (ticker filter, handleTimeout's staleness test, the entry guards of the enter functions, addVote's
+    and addProposalBlockPart's conditions around them, WaitForTxs, the timeout durations, WeightedMedian's loop
+    and MedianTime's sum).  Statement in C04/SourceTie.v. *)
+Theorem C04_source_tie : C04_source_tie_statement.
+Proof. exact C04_source_tie_proof. Qed.
+Print Assumptions C04_source_tie.
+
+(** PARTIAL (liveness of the synchronous suffix under timely delivery, C04/LockModel.v: all correct validators
+    count the same prevote and precommit sets in a round, a block with a polka reaches every correct validator
+    before it leaves the round; Byzantine validators vote and propose arbitrarily): correct validators above
+    two thirds of the power, [polka_of] the +2/3 value of a vote set, a run of rounds r0, r0+1, ... from a
+    well-formed configuration in which the locks of the correct validators agree ([Inv]), every correct
+    validator the proposer at least once in every window of w rounds => one of the first 2 w rounds decides
+    the same block at EVERY correct validator.  Missing for the full property: see C04/Open.v (rotation bound
+    from C12, parts from C13, validity of a correct proposer's new block, refinement from ConsensusState). *)
+Theorem C04_liveness_partial :
+  forall powers, Forall (fun p => (0 <= p)%Z) powers ->
+  forall (B : Type) (B_eq_dec : forall x y : B, {x = y} + {x <> y}) (correct : nat -> bool),
+    (2 * Power.total powers < 3 * Power.pw powers correct)%Z ->
+    (forall i, correct i = true -> (i < Power.n powers)%nat) ->
+  forall (valid : B -> bool) (proposer : nat -> nat) (polka_of : voteset B -> option (option B)),
+    (forall vs y, polka_of vs = Some y <-> maj23 powers B B_eq_dec vs y) ->
+  forall (r0 : nat) (cfs : nat -> conf B) (ds : nat -> nat -> option B),
+    (forall k, shared_round powers B B_eq_dec correct valid proposer polka_of (r0 + k) (cfs k) (cfs (S k)) (ds k)) ->
+    Inv B correct valid (cfs 0%nat) ->
+  forall w : nat,
+    (forall i, correct i = true -> forall r, exists r', (r <= r' < r + w)%nat /\ proposer r' = i) ->
+    exists k x, (k < 2 * w)%nat /\ forall i, correct i = true -> ds k i = Some x.
+Proof. exact suffix_decides. Qed.
+Print Assumptions C04_liveness_partial.
+
+(** The agreement of the locks at the start of the suffix follows from the code's two lock rules once the
+    polkas of the earlier rounds are known to every correct validator: a lock (b, lr) is taken on the polka of
+    round lr; a polka of a later round for another block releases it. *)
+Theorem C04_locks_agree_from_polkas :
+  forall (B : Type) (correct : nat -> bool) (c : conf B) (polka_at : nat -> option B),
+    (forall i b lr, correct i = true -> locked B (c i) = Some (b, lr) -> polka_at lr = Some b) ->
+    (forall i b lr r b', correct i = true -> locked B (c i) = Some (b, lr) -> (lr < r)%nat ->
+                         polka_at r = Some b' -> b' = b) ->
+    locks_agree B correct c.
+Proof. exact locks_agree_from_polkas. Qed.
+Print Assumptions C04_locks_agree_from_polkas.
+
+(** [polka_of] exists for every validator set: a computable function that returns the +2/3 value of a vote set. *)
+Theorem C04_polka_of_exists :
+  forall powers, Forall (fun p => (0 <= p)%Z) powers ->
+  forall (B : Type) (B_eq_dec : forall x y : B, {x = y} + {x <> y}) (vs : voteset B) (y : option B),
+    polka_fn powers B B_eq_dec vs = Some y <-> maj23 powers B B_eq_dec vs y.
+Proof. exact polka_fn_spec. Qed.
+Print Assumptions C04_polka_of_exists.
+
+(** REFUTED: the full statement as it was written in C04/Open.v (arbitrary locks after the prefix, only the
+    current round's prevotes delivered).  Witness: four validators of power 1, the first three correct,
+    validator 0 locked on block 1 and validator 1 on block 2 (round 0), a correct proposer in every round:
+    the prevotes are 1, 2 and the proposal, no polka, nil precommits, for ever. *)
+Theorem C04_liveness_full_statement_refuted : ~ C04_liveness_full_statement.
+Proof. exact liveness_full_statement_refuted. Qed.
+Print Assumptions C04_liveness_full_statement_refuted.
+
+(** What WeightedMedian computes (the `median <= weight` loop over the entries sorted by time, as coded): the
+    time of an entry such that the entries with a time up to it weigh at least floor(total / 2), while for
+    every entry with an earlier time the entries up to that time weigh less (the harness checks exactly this
+    on the real function: oracle median-spec). *)
+Theorem C04_median_time_spec :
+  forall present t,
+    Forall (fun x => (0 <= wt_weight x)%Z) present ->
+    median_time present = Some t ->
+    (exists e, In e present /\ wt_time e = t) /\
+    (total_weight present / 2 <= cum_le present t)%Z /\
+    (forall y, In y present -> (wt_time y < t)%Z -> (cum_le present (wt_time y) < total_weight present / 2)%Z).
+Proof. exact median_time_spec. Qed.
+Print Assumptions C04_median_time_spec.
